@@ -438,6 +438,26 @@ def check_carry_over(ctx, fn, inner):
         if any(isinstance(t, ast.Subscript) and isinstance(t.ctx, ast.Store) and A.root_name(t) in inner
                and isinstance(t.slice, ast.Name) and t.slice.id == tv for t in A.walk_body(loop.body)):
             loops.append(loop)
+    # the same carry-over written as one bulk update: <alias>.update((t, old[t]) for t in <list> if t not in <alias> ...)
+    bulk = []
+    for c in A.walk_local(fn):
+        if isinstance(c, ast.Call) and isinstance(c.func, ast.Attribute) and c.func.attr == "update" and A.root_name(c.func.value) in inner \
+                and len(c.args) == 1 and isinstance(c.args[0], (ast.GeneratorExp, ast.ListComp, ast.DictComp)) and len(c.args[0].generators) == 1 \
+                and isinstance(c.args[0].generators[0].target, ast.Name):
+            bulk.append(c)
+    for c in bulk:
+        g = c.args[0].generators[0]
+        tv = g.target.id
+        guarded = any(isinstance(t, ast.Compare) and len(t.ops) == 1 and isinstance(t.ops[0], ast.NotIn) and A.src(t.left) == tv
+                      and A.root_name(t.comparators[0]) in inner
+                      for cond in g.ifs for t, pol in A.literals(cond, True) if pol)
+        ctx.check("C14-c", guarded, c, "_update_context carries the earlier types over with `%s`, which also overwrites a key the new "
+                  "variable context already has: when the applied variable has the same type as an earlier one, its own sub-context "
+                  "under that type is replaced by the old variable's, so context.variable no longer describes the variable that was "
+                  "applied (the loop form guards with `type not in cvar`)" % A.short(c, 70),
+                  detail="bulk carry-over only for types the new context lacks", construct="carry-over-overwrites")
+    if bulk and not loops:
+        return
     if not ctx.require(loops and len(lists) == 1 and not other, "C14-c", fn,
                        "_update_context: the loop carrying earlier types over to the new context['variable'] / the list "
                        "stored under 'compose' not recognised"):
